@@ -1,0 +1,299 @@
+//! Verification hooks (cargo feature `verif`). Not compiled into normal builds.
+//!
+//! Everything here is thread-local, so concurrent evaluations on different threads do not
+//! observe each other's hooks.
+use std::cell::{Cell, RefCell};
+use std::collections::HashMap;
+
+pub use crate::ast::{Expr, Operator, Stmt};
+pub use crate::gc::GC;
+
+use crate::lexer::{Token, Tokenizer};
+
+thread_local! {
+    static OUTPUT: RefCell<Option<String>> = RefCell::new(None);
+    static BUDGET: Cell<Option<u64>> = Cell::new(None);
+    static FAULT: Cell<Option<&'static str>> = Cell::new(None);
+    static HEAP: RefCell<HeapLedger> = RefCell::new(HeapLedger::default());
+    static TRACE: RefCell<Trace> = RefCell::new(Trace::default());
+}
+
+// ---------------------------------------------------------------- tokens
+
+/// The token stream of `src` as (variant name, text) pairs.
+pub fn tokens(src: &str) -> Vec<(String, String)> {
+    Tokenizer::new(src)
+        .map(|t| match t {
+            Token::Identifier(s) => ("Identifier".to_string(), s.to_string()),
+            Token::Int(s) => ("Int".to_string(), s.to_string()),
+            Token::Float(s) => ("Float".to_string(), s.to_string()),
+            Token::String(s) => ("String".to_string(), s.to_string()),
+            other => (format!("{:?}", other), String::new()),
+        })
+        .collect()
+}
+
+// ---------------------------------------------------------------- print capture
+
+pub fn capture_start() {
+    OUTPUT.with(|o| *o.borrow_mut() = Some(String::new()));
+}
+
+pub fn capture_take() -> String {
+    OUTPUT.with(|o| o.borrow_mut().take().unwrap_or_default())
+}
+
+/// Called by `print`: returns true if the text was captured (and must not go to stdout).
+pub(crate) fn capture(text: &str) -> bool {
+    OUTPUT.with(|o| match o.borrow_mut().as_mut() {
+        Some(buf) => {
+            buf.push_str(text);
+            true
+        }
+        None => false,
+    })
+}
+
+// ---------------------------------------------------------------- instruction budget, faults
+
+pub fn set_budget(b: Option<u64>) {
+    BUDGET.with(|c| c.set(b));
+    FAULT.with(|c| c.set(None));
+}
+
+/// Called once per VM instruction: true when the budget is exhausted.
+#[inline]
+pub(crate) fn tick() -> bool {
+    BUDGET.with(|c| match c.get() {
+        None => false,
+        Some(0) => true,
+        Some(n) => {
+            c.set(Some(n - 1));
+            false
+        }
+    })
+}
+
+/// Record an out-of-contract access (the first one wins).
+pub(crate) fn fault(site: &'static str) {
+    FAULT.with(|c| {
+        if c.get().is_none() {
+            c.set(Some(site))
+        }
+    });
+}
+
+pub(crate) fn take_fault() -> Option<&'static str> {
+    FAULT.with(|c| c.take())
+}
+
+// ---------------------------------------------------------------- shadow heap
+
+#[derive(Default)]
+struct HeapLedger {
+    /// address -> (allocation sequence number, still allocated)
+    boxes: HashMap<usize, (u64, bool)>,
+    next: u64,
+    double_free: u64,
+    use_after_free: u64,
+}
+
+#[derive(Debug, Clone, Copy, Default)]
+pub struct HeapStats {
+    pub allocated: u64,
+    pub live: u64,
+    pub double_free: u64,
+    pub use_after_free: u64,
+}
+
+pub fn heap_reset() {
+    HEAP.with(|h| *h.borrow_mut() = HeapLedger::default());
+}
+
+pub fn heap_stats() -> HeapStats {
+    HEAP.with(|h| {
+        let h = h.borrow();
+        HeapStats {
+            allocated: h.next,
+            live: h.boxes.values().filter(|(_, live)| *live).count() as u64,
+            double_free: h.double_free,
+            use_after_free: h.use_after_free,
+        }
+    })
+}
+
+pub fn is_live(addr: usize) -> bool {
+    HEAP.with(|h| matches!(h.borrow().boxes.get(&addr), Some((_, true))))
+}
+
+pub(crate) fn on_alloc(addr: usize) {
+    HEAP.with(|h| {
+        let mut h = h.borrow_mut();
+        let n = h.next;
+        h.next += 1;
+        h.boxes.insert(addr, (n, true));
+    });
+}
+
+/// Called by `destroy`: true if the box may be released now (it is quarantined, never handed
+/// back to the allocator, so a later use of the stale address is recognised); false = second
+/// release of the same box.
+pub(crate) fn on_free(addr: usize) -> bool {
+    HEAP.with(|h| {
+        let mut h = h.borrow_mut();
+        match h.boxes.get_mut(&addr) {
+            Some((_, live)) if *live => {
+                *live = false;
+                true
+            }
+            Some(_) => {
+                h.double_free += 1;
+                false
+            }
+            // not allocated on this thread's ledger (e.g. created before `heap_reset`)
+            None => true,
+        }
+    })
+}
+
+/// Called before every dereference of a heap box.
+pub(crate) fn check_live(addr: usize) {
+    let dead = HEAP.with(|h| {
+        let mut h = h.borrow_mut();
+        match h.boxes.get(&addr) {
+            Some((_, false)) => {
+                h.use_after_free += 1;
+                true
+            }
+            _ => false,
+        }
+    });
+    if dead {
+        panic!("verif: use of a released object");
+    }
+}
+
+// ---------------------------------------------------------------- execution trace
+
+#[derive(Default, Clone, Debug)]
+pub struct Trace {
+    pub enabled: bool,
+    pub steps: u64,
+    pub halt_stack: usize,
+    pub max_stack: usize,
+    /// per collection: (objects kept, objects released)
+    pub gc_runs: Vec<(usize, usize)>,
+    /// stack height seen at each backward-jump target (loop head), first visit; a later visit of
+    /// the same (frame depth, ip) with a different height counts as drift
+    heads: HashMap<(usize, usize), usize>,
+    pub loop_drift: u64,
+    last_ip: usize,
+}
+
+pub fn trace_start(enabled: bool) {
+    TRACE.with(|t| {
+        *t.borrow_mut() = Trace {
+            enabled,
+            ..Trace::default()
+        }
+    });
+}
+
+pub fn trace_take() -> Trace {
+    TRACE.with(|t| std::mem::take(&mut *t.borrow_mut()))
+}
+
+/// Called before each instruction.
+#[inline]
+pub(crate) fn on_step(ip: usize, opcode: u8, stack: usize, frames: usize, bp: usize) {
+    TRACE.with(|t| {
+        let mut t = t.borrow_mut();
+        if !t.enabled {
+            return;
+        }
+        t.steps += 1;
+        if stack > t.max_stack {
+            t.max_stack = stack;
+        }
+        // a backward jump landed here: loop head. The height relative to the frame's base must
+        // be the same on every visit within one activation; we key on (frames, bp, ip).
+        if ip < t.last_ip && opcode != crate::compiler::OpCode::Halt as u8 {
+            let key = (frames * 1_000_003 + bp, ip);
+            match t.heads.get(&key) {
+                Some(h) if *h != stack => t.loop_drift += 1,
+                Some(_) => {}
+                None => {
+                    t.heads.insert(key, stack);
+                }
+            }
+        }
+        t.last_ip = ip;
+        if opcode == crate::compiler::OpCode::Halt as u8 {
+            t.halt_stack = stack;
+        }
+    });
+}
+
+/// Called when an activation ends: forget its loop heads.
+pub(crate) fn on_return(frames: usize, bp: usize) {
+    TRACE.with(|t| {
+        let mut t = t.borrow_mut();
+        if t.enabled {
+            let k = frames * 1_000_003 + bp;
+            t.heads.retain(|key, _| key.0 != k);
+        }
+    });
+}
+
+pub(crate) fn on_gc_run(kept: usize, released: usize) {
+    TRACE.with(|t| {
+        let mut t = t.borrow_mut();
+        if t.enabled {
+            t.gc_runs.push((kept, released));
+        }
+    });
+}
+
+// ---------------------------------------------------------------- tables
+
+/// The finite tables of the implementation, one per line, for the exhaustive table
+/// correspondence: opcodes (byte, name, operand widths), token precedences, keywords, builtins,
+/// type tags, integer range.
+pub fn tables() -> String {
+    let mut out = Vec::new();
+    for b in 0u8..=(crate::compiler::OpCode::Halt as u8) {
+        let op = crate::compiler::OpCode::from(b);
+        let widths: Vec<String> = op.verif_operands().iter().map(|w| w.to_string()).collect();
+        out.push(format!("opcode {} {} [{}]", b, op, widths.join(",")));
+    }
+    for (name, level) in crate::parser::verif_precedences() {
+        out.push(format!("prec {} {}", name, level));
+    }
+    for word in [
+        "als", "antwoord", "zolang", "anders", "functie", "stel", "ja", "nee", "volgende", "stop",
+        "waar", "onwaar", "if", "else", "while", "return", "break", "continue", "print", "x",
+    ] {
+        out.push(format!("keyword {} {:?}", word, Token::from(word)));
+    }
+    for name in ["print", "type", "bool", "float", "int", "string", "lengte", "len", "str", "x"] {
+        match crate::builtins::resolve(name) {
+            Some(b) => out.push(format!("builtin {} {}", name, b as u8)),
+            None => out.push(format!("builtin {} none", name)),
+        }
+    }
+    for t in [
+        crate::object::Type::Null,
+        crate::object::Type::Int,
+        crate::object::Type::Bool,
+        crate::object::Type::Function,
+        crate::object::Type::Float,
+        crate::object::Type::String,
+        crate::object::Type::Array,
+    ] {
+        let name = t.to_string();
+        out.push(format!("type {} {}", name, t as u8));
+    }
+    let (lo, hi) = crate::object::verif_int_range();
+    out.push(format!("intrange {} {}", lo, hi));
+    out.join("\n")
+}
